@@ -11,7 +11,7 @@ for NAME in $NAMES; do
   W=$S/wt.$NAME
   git -C /repo worktree add --detach -q $W HEAD 2>/dev/null || { echo "$NAME: cannot create worktree"; continue; }
   if git -C $W apply $D/patch.diff 2>/dev/null; then
-    (cd /verif; VERIF_REPO=$W VERIF_EVIDENCE_DIR=$S/ev VERIF_REPLAY_DIR=$S/rp timeout 3000 ./check $ID --tier $TIER > $S/$NAME.out 2>&1; echo $? > $S/$NAME.rc)
+    (cd ${VERIF_HOME:-/verif}; VERIF_REPO=$W VERIF_EVIDENCE_DIR=$S/ev VERIF_REPLAY_DIR=$S/rp timeout 3000 ./check $ID --tier $TIER > $S/$NAME.out 2>&1; echo $? > $S/$NAME.rc)
     /venv/bin/python - $D/meta.json $S/$NAME.out $(cat $S/$NAME.rc) $TIER $ID <<'PY'
 import json, sys, re
 meta, out, rc, tier, pid = sys.argv[1:6]
